@@ -12,7 +12,7 @@ RULE = (
     "distinct sample numbers + sizes 0<=n_c<=#cards listing c + a seed. Oracle: selected == union_c first n_c cards listing c, "
     "sorted by sample number, no repeats; threshold_c == number of c's n_c-th card; cvr.sampled exactly on the union; "
     "mvrs_to_data(c) == overstatement values of exactly those n_c cards in order; sample numbers depend on (seed, position) "
-    "only; selection invariant under replacing vote contents. Non-trivial = >=2 contests with different styles and some card "
+    "only (also for records that already carry a number, from an import or an earlier seed); selection invariant under replacing vote contents. Non-trivial = >=2 contests with different styles and some card "
     "skipped by the walk before the last selected one. distinct = canonical JSON."
 )
 ASSUMPTIONS = [
@@ -142,6 +142,13 @@ def evaluate(case, out):
         CVR.assign_sample_nums(l2, SHA256(case["seed"]))
         CVR.assign_sample_nums(l3, SHA256(case["seed"]))
         CVR.assign_sample_nums(l1[:], SHA256(case["seed"]))  # idempotent re-assignment
+        # records that already carry a number (imported with one, numbered under a rehearsal seed, ...) are numbered like
+        # any others: the documented effect is "assigns (or overwrites)"
+        l4 = [CVR(id=f"q{i}", votes={}, sample_num=(None if (i + case["seed"]) % 3 else 10 ** 9 + i)) for i in range(n)]
+        CVR.assign_sample_nums(l4, SHA256(case["seed"]))
+        l5 = [CVR(id=f"r{i}", votes={}) for i in range(n)]
+        CVR.assign_sample_nums(l5, SHA256(case["seed"] + 1))
+        CVR.assign_sample_nums(l5, SHA256(case["seed"]))
     except Exception as e:  # noqa
         out.lib_exception("assign_sample_nums", e)
         return
@@ -149,3 +156,6 @@ def evaluate(case, out):
     out.expect(s1 == s2, "sample-numbers-depend-on-record-contents", lambda: (s1[:3], s2[:3]))
     out.expect(s3 == s1[: len(s3)], "sample-numbers-of-a-prefix-depend-on-what-follows", lambda: (s3[:3], s1[:3]))
     out.expect(all(isinstance(s, int) for s in s1), "sample-number-type", lambda: s1[:3])
+    s4, s5 = [c.sample_num for c in l4], [c.sample_num for c in l5]
+    out.expect(s4 == s1, "sample-numbers-depend-on-numbers-already-present", lambda: (s4[:4], s1[:4]))
+    out.expect(s5 == s1, "sample-numbers-after-re-seeding-differ-from-a-fresh-assignment", lambda: (s5[:4], s1[:4]))
